@@ -34,6 +34,12 @@ pub struct LRow {
 #[derive(Clone, Debug, Serialize, Deserialize)]
 pub struct LBatch {
     pub rows: Vec<LRow>,
+    /// column layout of this flush (the ingester flushes on every schema change, so consecutive
+    /// flushes may differ): 0 = the default order, 1 = an extra label column `dc` in front of `host`
+    /// (labels are ordered by name on the write path), 2 = the same columns in reverse order,
+    /// 3 = an extra first column
+    #[serde(default)]
+    pub layout: u8,
 }
 
 #[derive(Clone, Debug, Serialize, Deserialize)]
@@ -151,7 +157,19 @@ fn build(ts_type: u8, b: &LBatch, merge: i64, rid0: i64) -> RecordBatch {
         Arc::new(Int64Array::from(b.rows.iter().map(|r| r.i.map(|v| if r.ineg { -((v % 8) as i64) } else { (v % 8) as i64 })).collect::<Vec<_>>())),
         Arc::new(Int64Array::from((0..b.rows.len() as i64).map(|k| rid0 + k).collect::<Vec<_>>())),
     ];
-    RecordBatch::try_new(schema(ts_type), cols).unwrap()
+    let base = schema(ts_type);
+    let mut named: Vec<(Field, ArrayRef)> = base.fields().iter().map(|f| f.as_ref().clone()).zip(cols).collect();
+    // values of the extra label are taken from the other labels' value sets, so that a predicate
+    // evaluated against the wrong column has something to match
+    let extra = |name: &str| -> (Field, ArrayRef) { (Field::new(name, DataType::Utf8, true), Arc::new(StringArray::from(b.rows.iter().enumerate().map(|(k, r)| Some(if k % 2 == 0 { HOSTS[(r.metric as usize + k) % 4] } else { METRICS[k % 3] })).collect::<Vec<_>>())) as ArrayRef) };
+    match b.layout % 4 {
+        1 => named.insert(2, extra("dc")),
+        2 => named.reverse(),
+        3 => named.insert(0, extra("aaa")),
+        _ => {}
+    }
+    let (fields, arrays): (Vec<Field>, Vec<ArrayRef>) = named.into_iter().unzip();
+    RecordBatch::try_new(Arc::new(Schema::new(fields)), arrays).unwrap()
 }
 
 /// rids selected by DataFusion's evaluation of the WHERE clause on one batch
@@ -218,6 +236,9 @@ fn classify(case: &Case, f: &WFlags, exp: &[Vec<i64>], out: &mut Outcome) {
     }
     if mixed {
         out.class("batch-with-matching-and-non-matching-rows");
+    }
+    if case.batches.windows(2).any(|w| w[0].layout % 4 != w[1].layout % 4) {
+        out.class("column-layout-changes-between-flushes");
     }
 }
 
@@ -495,7 +516,7 @@ fn wtree(core_only: bool) -> impl Strategy<Value = W> {
 }
 
 fn case_strategy(core_only: bool, ts_types: u8) -> BoxedStrategy<Case> {
-    (0u8..ts_types, prop::collection::vec(prop::collection::vec(lrow(), 1..8).prop_map(|rows| LBatch { rows }), 1..5), wtree(core_only)).prop_map(|(ts_type, batches, w)| Case { ts_type, batches, w, early: 0 }).boxed()
+    (0u8..ts_types, prop::collection::vec((prop::collection::vec(lrow(), 1..8), prop_oneof![3 => Just(0u8), 1 => Just(1u8), 1 => Just(2u8), 1 => Just(3u8)]).prop_map(|(rows, layout)| LBatch { rows, layout }), 1..5), wtree(core_only)).prop_map(|(ts_type, batches, w)| Case { ts_type, batches, w, early: 0 }).boxed()
 }
 
 fn tf() -> impl Strategy<Value = TF> {
